@@ -295,4 +295,35 @@ theorem replace_success_in_place (s : Nat → Bool) (checked : Bool) (key : Byte
   simp only [Item.kids] at hj hlt
   simp [replaceInObject, optAlloc, hs, hj, Item.kids, Item.withKids, hlt, Item.name]
 
+
+/-! ### constructors -/
+
+/-- `cJSON_CreateString` either returns the string item holding its two blocks, or NULL holding none, and it fails
+    only at the first of its two allocations that fails — for every schedule. -/
+theorem create_string_ledger (s : Nat → Bool) (str : Bytes) (a : A) :
+    Spec s 2 (Item.mk 16 false false 0 0 (some str) none []) a (createString s str a) := by
+  unfold createString
+  cases h1 : optAlloc s true a with
+  | mk b1 a1 =>
+  cases b1 with
+  | false =>
+    obtain ⟨hf, hl⟩ := optAlloc_false h1
+    exact ⟨hl, by simpa using hf.mono 1⟩
+  | true =>
+    obtain ⟨ok1, n1, l1⟩ := optAlloc_true h1
+    simp only [b2n_true] at ok1 n1 l1
+    dsimp only
+    cases h2 : optAlloc s true a1 with
+    | mk b2 a2 =>
+    cases b2 with
+    | false =>
+      obtain ⟨hf, hl⟩ := optAlloc_false h2
+      rw [n1] at hf
+      exact ⟨by dsimp only; omega, by simpa using FirstFail.after ok1 hf⟩
+    | true =>
+      obtain ⟨ok2, n2, l2⟩ := optAlloc_true h2
+      simp only [b2n_true] at ok2 n2 l2
+      rw [n1] at ok2
+      exact ⟨rfl, by omega, by omega, by simpa using AllOk.append ok1 ok2⟩
+
 end Cjet.Props.CjsonTree
